@@ -228,7 +228,7 @@ class Interp(object):
             if name in module.assigns:
                 saved = self.spec_mode
                 try:
-                    return self.eval(module.assigns[name], Env(module=module))
+                    return self.module_value(name, module)
                 finally:
                     self.spec_mode = saved
             if name in module.imports:
@@ -241,6 +241,48 @@ class Interp(object):
         if name in BUILTIN_NAMES:
             return Ext("builtin:" + name)
         raise OutOfSubset("unknown name %s" % name)
+
+    def module_value(self, name, module):
+        """Value of a module-level name after the module's own top-level statements that touch it
+        (assignments, augmented assignments, in-place method calls such as ``X.update(...)``),
+        executed in source order.  ``try`` bodies are taken as succeeding, ``if`` tests must be
+        decidable."""
+        env = Env(module=module)
+        hit = [False]
+
+        def touches(node):
+            if isinstance(node, ast.Assign):
+                return any(isinstance(t, ast.Name) and t.id == name for t in node.targets)
+            if isinstance(node, ast.AugAssign):
+                return isinstance(node.target, ast.Name) and node.target.id == name
+            if isinstance(node, ast.Expr) and isinstance(node.value, ast.Call):
+                f = node.value.func
+                return (isinstance(f, ast.Attribute) and isinstance(f.value, ast.Name) and f.value.id == name
+                        and f.attr in ("update", "append", "extend", "add"))
+            return False
+
+        def run(body):
+            for node in body:
+                if touches(node):
+                    hit[0] = True
+                    if isinstance(node, ast.Assign):
+                        env.set(name, self.eval(node.value, env))
+                    elif isinstance(node, ast.AugAssign):
+                        self.x_AugAssign(node, env)
+                    else:
+                        self.eval(node.value, env)
+                elif isinstance(node, ast.If) and any(touches(n) for n in ast.walk(node)):
+                    c = ops.truth(self, self.eval(node.test, env))
+                    if not isinstance(c, bool):
+                        raise OutOfSubset("module-level condition for %s is not decidable" % name)
+                    run(node.body if c else node.orelse)
+                elif isinstance(node, ast.Try) and any(touches(n) for n in ast.walk(node)):
+                    run(node.body)
+
+        run(module.tree.body)
+        if not hit[0]:
+            return self.eval(module.assigns[name], Env(module=module))
+        return env.lookup(name)
 
     def resolve_import(self, dotted):
         """A dotted import target -> value (FuncVal for repo functions, Ext otherwise)."""
